@@ -223,6 +223,13 @@ class FullStack(MempoolRun):
                 g.release()
                 self.loop.run_until_idle()
                 return True
+            # the block processor reads headers itself during a reorg (and notifications read through
+            # worker jobs while it waits for the fan-out): jobs the schedule is not holding back
+            other = [j for j in self.session_jobs() if j not in getattr(self, 'hold', ())]
+            if other:
+                other[0].deliver()
+                self.loop.run_until_idle()
+                return True
             return False
         if kind == 'mp':
             return self.pump_mempool_once()
